@@ -290,29 +290,50 @@ def r3(ctx):
 
 @rule("C12.R4", "all writers of namespace._passes key an option by its first flag")
 def r4(ctx):
+    """table specification: in the decision tables of the three writers, every store into / growth of an entry of the
+    `_passes` table is keyed by the option's FIRST flag (locals and getattr() spellings are resolved by the tables)"""
+    from ..spec import tab, vt
+
     repo = ctx.repo
     ss = repo.cls("config", "_StoreSplitAction").find_method("__call__")
     em = repo.cls("config", "_ExtendMatchAction")
     pa = repo.cls("config", "ArgumentParser").find_method("parse_args")
-    # parse_args default registration
-    st = [s for s in walk_no_nested(pa.node) if isinstance(s, ast.Assign) and isinstance(s.targets[0], ast.Subscript) and u(s.targets[0].value) == "namespace._passes"]
-    env = {u(s.targets[0]): u(s.value) for s in walk_no_nested(pa.node) if isinstance(s, ast.Assign)}
-    for s in st:
-        k = u(s.targets[0].slice)
-        ctx.check(env.get(k, k) == "option['flags'][0]", f"config:ArgumentParser.parse_args:_passes-key:{k}", f"default passes are registered under {env.get(k, k)}", pa.loc(s))
-    # store_split
-    for s in walk_no_nested(ss.node):
-        if isinstance(s, ast.Assign) and isinstance(s.targets[0], ast.Subscript) and u(s.targets[0].value) == "passes":
-            k = u(s.targets[0].slice)
-            ctx.check(k == "self.option_strings[0]", f"config:_StoreSplitAction.__call__:_passes-key:{k}", f"store_split stores the selected passes under `{k}`: with flags=[-t, --targets] and a default, the second spelling keeps the default pass the first one replaces (all writers must key by the option's first flag)", ss.loc(s))
-    # extend_match
-    init = em.find_method("__init__")
-    fn = [s for s in init.node.body if isinstance(s, ast.Assign) and u(s.targets[0]) == "self.flag_name"]
-    ctx.check(len(fn) == 1 and u(fn[0].value) == "option_strings[0]", "config:_ExtendMatchAction.__init__:flag_name", "flag_name must be the option's first flag", init.loc())
     call = em.find_method("__call__")
-    for s in walk_no_nested(call.node):
-        if isinstance(s, (ast.Subscript,)) and u(s.value) == "passes":
-            ctx.check(u(s.slice) == "self.flag_name", f"config:_ExtendMatchAction.__call__:_passes-key:{u(s.slice)}", "extend_match must key by self.flag_name", call.loc(s))
+
+    def keys_of(f):
+        out = {}
+        for p in tab(f, unroll=1):
+            for e in p.effects:
+                if e[0] not in ("store", "call", "aug", "del") or len(e) < 2:
+                    continue
+                t = vt(e[1])
+                i = t.find("._passes[")
+                if i < 0:
+                    continue
+                j, depth = i + len("._passes["), 1
+                k = j
+                while k < len(t) and depth:
+                    depth += t[k] == "["
+                    depth -= t[k] == "]"
+                    k += 1
+                out.setdefault(t[j : k - 1], e)
+        return out
+
+    n = 0
+    for f, ok_key, what in (
+        (pa, lambda k: re.search(r"\['flags'\]\[0\]$", k) is not None, "default passes are registered"),
+        (ss, lambda k: k == "self.option_strings[0]", "store_split stores the selected passes"),
+        (call, lambda k: k in ("self.flag_name", "self.option_strings[0]"), "extend_match collects the matched passes"),
+    ):
+        ks = keys_of(f)
+        if not ks:
+            raise AnalysisError(f"{f.key}: no write to namespace._passes found in the decision table")
+        for k in ks:
+            n += 1
+            ctx.check(ok_key(k), f"{f.key}:_passes-key:{k[-40:]}", f"{what} under `{k[-60:]}`: with flags=[-t, --targets] and a default, the second spelling keeps the default pass the first one replaces (all writers must key an option by its FIRST flag)", f.loc())
+    init = em.find_method("__init__")
+    vals = {vt(e[2]) for p in tab(init, unroll=1) for e in p.effects if e[0] == "store" and vt(e[1]) == "self.flag_name"}
+    ctx.check(vals == {"option_strings[0]"}, "config:_ExtendMatchAction.__init__:flag_name", f"flag_name must be the option's first flag: {sorted(vals)}", init.loc())
     ctx.floor(4)
 
 
